@@ -116,6 +116,22 @@ Proof.
   intros i Hin. rewrite forallb_forall in Ef. specialize (Ef i Hin). now apply (mem_In String.eqb string_eqb_spec) in Ef.
 Qed.
 
+(* ... and with drop_unused_inputs the comparison is on the argument Vars themselves, not on their names: every argument the
+   outputs were found to use (first build, no requested arguments) is one of the listed Vars, else KeyError *)
+Theorem build_public_drop_used_listed p r m inputs outputs :
+  build_public p r = inl m -> r_drop r = true ->
+  all_vars (r_inputs r) = Some inputs -> all_vars (r_outputs r) = Some outputs ->
+  exists un b1, build_main (S (List.length (graphs p))) (with_main p None outputs) un 0 = inl b1 /\
+                forall v, In v (b_args b1) -> In v (map snd inputs).
+Proof.
+  unfold build_public. intros H Hd Hi Ho. rewrite Hi, Ho, Hd in H.
+  destruct (negb _); [discriminate|]. destruct outputs as [|o os]; [discriminate|].
+  apply bind_ok in H. destruct H as [args [Ha _]]. apply bind_ok in Ha. destruct Ha as [b1 [Hb1 Ha]].
+  eexists. exists b1. split; [exact Hb1|].
+  destruct (forallb (fun v => mem var_eqb v (map snd inputs)) (b_args b1)) eqn:Ef; [|discriminate].
+  intros v Hv. rewrite forallb_forall in Ef. specialize (Ef v Hv). now apply (mem_In var_eqb var_eqb_spec) in Ef.
+Qed.
+
 (* public argument checks *)
 Theorem build_public_bad_kinds p r : all_vars (r_inputs r) = None \/ all_vars (r_outputs r) = None -> build_public p r = inr EType.
 Proof. unfold build_public. intros [H|H].
